@@ -55,6 +55,7 @@ def traced_source():
     s += func("f_mod", "a, b=None, *, c=0")
     s += func("f_posonly", "a, /, b=2")
     s += func("f_star", "a, *args, **kwargs")
+    s += func("f_pos_star", "a, /, b=2, *rest, **extra")
     s += func("f_kwonly", "*, a, z=None")
     s += func("f_wrapped", "a, b=1", deco="S_deco")
     s += func("g_mod", "a, b=0", kind="gen")
@@ -95,6 +96,7 @@ TARGETS = {
         dict(name="f_mod_kw", maker="lambda: M.f_mod", sig="M.f_mod", selfargs="[]", kw=["c"]),
         dict(name="f_posonly", maker="lambda: M.f_posonly", sig="M.f_posonly", selfargs="[]"),
         dict(name="f_star", maker="lambda: M.f_star", sig="M.f_star", selfargs="[]", extra_pos=2, extra_kw=["zz"]),
+        dict(name="f_pos_star", maker="lambda: M.f_pos_star", sig="M.f_pos_star", selfargs="[]", extra_pos=3, extra_kw=["zz", "yy"]),
         dict(name="f_kwonly", maker="lambda: M.f_kwonly", sig="M.f_kwonly", selfargs="[]", kwonly="a"),
         dict(name="f_wrapped", maker="lambda: M.f_wrapped", sig="M.f_wrapped.__wrapped__", selfargs="[]"),
         dict(name="Kls.m_inst", maker="lambda: OBJ.m_inst", sig="M.Kls.m_inst", selfargs="[OBJ]"),
